@@ -23,6 +23,7 @@ class QuicPacketSpace:
         self.expected_packet_number = 0
         self.largest_received_packet = -1
         self.largest_received_time: Optional[float] = None
+        self.received_packets = RangeSet()
 
         # sent packets and loss
         self.ack_eliciting_in_flight = 0
